@@ -29,7 +29,7 @@ type ListV struct {
 type IntV struct {
 	Const  *int64
 	Origin string
-	IdxOf  int // >0: index of the current element of finite list #IdxOf
+	IdxOf  int   // >0: index of the current element of finite list #IdxOf
 	LenOf  *Tmpl // set when the int is len(string template)
 	LenLst *ListV
 }
@@ -87,31 +87,31 @@ func asTmpl(v Val) Tmpl {
 // ---------------------------------------------------------------------------
 
 type env struct {
-	fn     *ssa.Function
-	bind   map[ssa.Value]Val // parameters
-	parent *env              // defining activation (closures)
-	clos   *ssa.MakeClosure
-	depth  int
-	tag    string // call path, for diagnostics
-	site   string // chain of call-instruction names leading to this activation
-	top    string // name of the exported method under evaluation
-	reach  map[*ssa.BasicBlock]bool
-	memo   map[ssa.Value]Val
+	fn           *ssa.Function
+	bind         map[ssa.Value]Val // parameters
+	parent       *env              // defining activation (closures)
+	clos         *ssa.MakeClosure
+	depth        int
+	tag          string // call path, for diagnostics
+	site         string // chain of call-instruction names leading to this activation
+	top          string // name of the exported method under evaluation
+	reach        map[*ssa.BasicBlock]bool
+	memo         map[ssa.Value]Val
 	opaqueResult func(callee *ssa.Function) bool // calls whose result is kept opaque (not inlined)
-	facts  map[ssa.Value]bool // string value -> known empty (true) / known non-empty (false)
-	rewriting map[ssa.Value]bool
+	facts        map[ssa.Value]bool              // string value -> known empty (true) / known non-empty (false)
+	rewriting    map[ssa.Value]bool
 }
 
 type Evaluator struct {
-	W        *World
-	Role     string
-	Pkg      *ssa.Package
-	nextList int
-	curCall  *ssa.Call
-	lists    map[int]*ListV
+	W         *World
+	Role      string
+	Pkg       *ssa.Package
+	nextList  int
+	curCall   *ssa.Call
+	lists     map[int]*ListV
 	fieldMemo map[string]Val
 	busyField map[string]bool
-	MaxDepth int
+	MaxDepth  int
 }
 
 func NewEvaluator(w *World, role string) *Evaluator {
